@@ -17,7 +17,7 @@ var selKeywords = map[string]bool{"SELECT": true, "DISTINCT": true, "FROM": true
 	"ORDER": true, "ASC": true, "DESC": true, "NULLS": true, "FIRST": true, "LAST": true, "LIMIT": true, "OFFSET": true, "PERCENT": true,
 	"ROW": true, "ROWS": true, "ONLY": true, "WITH": true, "TIES": true, "AS": true, "JOIN": true, "INNER": true, "OUTER": true, "LEFT": true,
 	"RIGHT": true, "FULL": true, "CROSS": true, "NATURAL": true, "ON": true, "USING": true, "OR": true, "AND": true, "NOT": true, "IS": true,
-	"LIKE": true, "NULL": true}
+	"LIKE": true, "NULL": true, "BETWEEN": true, "IN": true}
 
 var selChars = map[rune]bool{'(': true, ')': true, ',': true, '.': true, '*': true, '+': true, '-': true, '/': true, '%': true, '=': true, '!': true}
 
@@ -82,7 +82,7 @@ func selWords(text string, names map[string]string) (ws []string, ok bool) {
 			return nil, false // FETCH FIRST
 		case (w == "LIMIT" || w == "OFFSET") && !(i+1 < len(raw) && isNumWord(raw[i+1])):
 			return nil, false
-		case (w == "LIMIT" || w == "OFFSET") && i+2 < len(raw) && !(selKeywords[raw[i+2]] && raw[i+2] != "OR" && raw[i+2] != "AND" && raw[i+2] != "IS" && raw[i+2] != "LIKE" && raw[i+2] != "NOT" || raw[i+2] == ")"):
+		case (w == "LIMIT" || w == "OFFSET") && i+2 < len(raw) && !(selKeywords[raw[i+2]] && raw[i+2] != "OR" && raw[i+2] != "AND" && raw[i+2] != "IS" && raw[i+2] != "LIKE" && raw[i+2] != "NOT" && raw[i+2] != "BETWEEN" && raw[i+2] != "IN" || raw[i+2] == ")"):
 			return nil, false // the value of LIMIT / OFFSET is an expression: the model has plain numbers only
 		case w == "NULL" || w == "TRUE" || w == "FALSE" || w == "UNKNOWN":
 			if !(i > 0 && (raw[i-1] == "IS" || raw[i-1] == "NOT" && i > 1 && raw[i-2] == "IS")) {
